@@ -309,6 +309,16 @@ impl Contour {
     #[cfg(feature = "kurbo")]
     pub fn to_kurbo(&self) -> Result<kurbo::BezPath, ConvertContourError> {
         let mut path = kurbo::BezPath::new();
+        if !self.points.is_empty() && self.points.iter().all(|pt| pt.typ == PointType::OffCurve) {
+            // A closed quadratic contour without on-curve points: every segment runs
+            // between the implied on-curve points halfway between consecutive off-curves.
+            let pts: Vec<_> = self.points.iter().map(|pt| pt.to_kurbo()).collect();
+            path.move_to(pts[pts.len() - 1].midpoint(pts[0]));
+            for (i, pt) in pts.iter().enumerate() {
+                path.quad_to(*pt, pt.midpoint(pts[(i + 1) % pts.len()]));
+            }
+            return Ok(path);
+        }
         let mut offs = std::collections::VecDeque::new();
         let mut points = if self.is_closed() {
             // Add end-of-contour offcurves to queue
@@ -334,7 +344,8 @@ impl Contour {
                 PointType::OffCurve => offs.push_back(kurbo_point),
                 PointType::Curve => {
                     match offs.make_contiguous() {
-                        [] => return Err(ConvertContourError::new(ErrorKind::BadPoint)),
+                        // A curve without off-curves is a straight line.
+                        [] => path.line_to(kurbo_point),
                         [p1] => path.quad_to(*p1, kurbo_point),
                         [p1, p2] => path.curve_to(*p1, *p2, kurbo_point),
                         _ => return Err(ConvertContourError::new(ErrorKind::TooManyOffCurves)),
@@ -342,6 +353,10 @@ impl Contour {
                     offs.clear();
                 }
                 PointType::QCurve => {
+                    // A qcurve without off-curves is a straight line.
+                    if offs.is_empty() {
+                        path.line_to(kurbo_point);
+                    }
                     while let Some(pt) = offs.pop_front() {
                         if let Some(next) = offs.front() {
                             let implied_point = pt.midpoint(*next);
